@@ -55,6 +55,17 @@ class Ctx:
         self.tables: dict[str, list] = {}
         self.assumptions: list[str] = []
         self.extra: dict = {}
+        self.deferred: list[str] = []
+
+    def call(self, fn, *args) -> None:
+        """Run one rule; an analysis error of that rule is deferred so that the other rules still run.
+
+        Deferred errors make the whole check exit 2 unless a violation was found (a violation is the more
+        specific answer: typically the construct a rule anchors on was removed by the very change it reports)."""
+        try:
+            fn(self, *args)
+        except AnalysisError as error:
+            self.deferred.append(str(error))
 
     # ------------------------------------------------------------------ recording
     def record(self, rule, kind, anchor, construct, ok, facts=None, message="") -> Instance:
@@ -86,7 +97,8 @@ class Ctx:
         if missing_is_violation:
             self.record(rule, "COUNT", anchor, f"<missing> {what}", False, {"found": found, "expected_min": minimum}, msg)
             return False
-        raise AnalysisError(msg)
+        self.deferred.append(msg)
+        return False
 
 
 def load_known_findings() -> dict:
